@@ -173,8 +173,12 @@ DRV_CMD(vol_open, "vol.open") {
           bool lzh = false;
           try { lzh = v->GetCompressionCode(i) == CompressionType::LZH; } catch (const std::exception&) {}
           if (lzh) {   // what the decoder makes of the stored bytes belongs to C04; here: the member's extent must be accepted first
-            // (ExtractFile alone decides: it loads the stored block itself and must refuse one that is not inside the file)
-            v->ExtractFile(i, p);
+            // (ExtractFile alone decides whether the stored block is acceptable: it loads the block itself and must refuse one
+            // that is not inside the file.  A refusal that comes from the decoder - hostile data can exhaust the adaptive
+            // tree's capacity - is C04's subject: it is told apart by the extent being acceptable to OpenStream.)
+            try { v->ExtractFile(i, p); }
+            catch (const std::bad_alloc&) { throw; } catch (const std::length_error&) { throw; }
+            catch (const std::exception&) { auto s = v->OpenStream(i); (void)s; }
             return "lzh";
           }
           v->ExtractFile(i, p); return showBytes(readFile(p));
